@@ -468,13 +468,7 @@ func taskDone(t *task) {
 	t.local++ // its own key: the last point of the task may already carry a recorded switch
 	n := pickForced(t)
 	if n == nil {
-		all := true
-		for _, o := range tasks {
-			if !o.done {
-				all = false
-			}
-		}
-		if all {
+		if callersDone() {
 			mainWake <- struct{}{}
 			return
 		}
@@ -599,6 +593,13 @@ func block(t *task, w waitable) {
 		t.local++
 		n := pickForced(t)
 		if n == nil {
+			if callersDone() {
+				// every caller has returned; what is left are goroutines the library keeps for later (an idle worker
+				// pool waiting on its request channel): the end of the run, not a blocked library
+				probe("idle_library_goroutines_at_end_of_run")
+				mainWake <- struct{}{}
+				select {}
+			}
 			deadlock(t)
 		}
 		if n != t {
@@ -606,6 +607,16 @@ func block(t *task, w waitable) {
 		}
 	}
 	t.blocked = nil
+}
+
+// callersDone: every task started by the harness (a caller) has finished; goroutines started by the library may remain.
+func callersDone() bool {
+	for _, o := range tasks {
+		if !o.spawned && !o.done {
+			return false
+		}
+	}
+	return true
 }
 
 func deadlock(t *task) {
